@@ -1,2 +1,80 @@
+/-
+  C01 — random-access AES-CTR reads equal whole-stream decryption (3DS and DSi mode).
+  `E` is AES-128 encryption under the keyslot's normal key (a parameter: nothing about AES is used).
+-/
+import Proofs.CtrRefines
+import Proofs.TwlRefines
+import Proofs.SubRefines
+import Proofs.PyFileRefines
+import Proofs.Run
 namespace Pyctr.C01
+open Pyctr
+variable {σ : Type} {F : FileOps σ} {inv : σ → Prop} {abs : σ → AFile} (E : Bytes → Bytes)
+
+/-- 3DS flavour: over any readable inner file, `CTRFileIO` reads/seeks/tells exactly like an ordinary file whose
+    content is the whole-stream decryption `plain3ds E counter (inner content)`; the cached-cipher coherence
+    invariant (`invCtr`) is preserved by every operation. -/
+theorem C01_ctr_refines (hF : IsReadable F inv abs) :
+    IsReadable (CtrIO.ops F E) (CtrIO.invCtr inv abs) (CtrIO.absCtr E abs) := CtrIO.ctr_isReadable E hF
+
+theorem C01_ctr_content (s : CtrIO σ) :
+    (CtrIO.absCtr E abs s).content = plain3ds E s.counter (abs s.reader).content := by
+  rw [plain3ds_eq]; rfl
+
+/-- DSi flavour (`TWLCTRFileIO`): the per-16-byte-block reversal is invisible at every offset and length. -/
+theorem C01_twl_refines (hF : IsReadable F inv abs) :
+    IsReadable (TwlIO.ops F E) (TwlIO.invTwl inv) (TwlIO.absTwl E abs) := TwlIO.twl_isReadable E hF
+
+theorem C01_twl_content (s : TwlIO σ) :
+    (TwlIO.absTwl E abs s).content = plainTwl E s.counter (abs s.reader).content := by
+  rw [plainTwl_eq]; rfl
+
+/-- the block-reversal algebra behind the DSi flavour: en/decrypting a block-aligned buffer through
+    `_TWLCryptoWrapper` is XOR with the byte-reversed keystream blocks -/
+theorem C01_twl_blockrev (c0 : Nat) (dr : Bool) (P : Bytes) (h : P.length % 16 = 0) :
+    twlApply E ⟨c0, 0, none⟩ dr P = .ok (xorWith (twlKs E c0) 0 P, ⟨c0, 0 + P.length, some dr⟩) :=
+  twlApply_full E c0 dr P h
+
+/-- every history of seeks/reads/tells, any order (back-to-back reads that reuse the cached cipher, reads after a
+    seek that dropped it): outputs and final position equal those of the ordinary file with the plaintext content -/
+theorem C01_history_ctr (hF : IsReadable F inv abs) (ops : List Op) (hro : ∀ op ∈ ops, op.isWrite = false)
+    (s : CtrIO σ) (h : CtrIO.invCtr inv abs s) :
+    ((CtrIO.ops F E).run s ops).1 = (AFile.ops.run (CtrIO.absCtr E abs s) ops).1 :=
+  (isReadable_run (C01_ctr_refines E hF) ops hro s h).1
+
+theorem C01_history_twl (hF : IsReadable F inv abs) (ops : List Op) (hro : ∀ op ∈ ops, op.isWrite = false)
+    (s : TwlIO σ) (h : TwlIO.invTwl inv s) :
+    ((TwlIO.ops F E).run s ops).1 = (AFile.ops.run (TwlIO.absTwl E abs s) ops).1 :=
+  (isReadable_run (C01_twl_refines E hF) ops hro s h).1
+
+/-- the two bases the property names: a plain file … -/
+theorem C01_plain_file : IsReadable (CtrIO.ops PyFile.ops E) (CtrIO.invCtr (fun _ => True) PyFile.abs)
+    (CtrIO.absCtr E PyFile.abs) := C01_ctr_refines E pyfile_isFile.toIsReadable
+
+/-- … and a windowed sub-file (both flavours). -/
+theorem C01_windowed_ctr :
+    IsReadable (CtrIO.ops (Sub.ops PyFile.ops) E)
+      (CtrIO.invCtr (Sub.invSub (fun _ => True) PyFile.abs) (Sub.absSub PyFile.abs))
+      (CtrIO.absCtr E (Sub.absSub PyFile.abs)) :=
+  C01_ctr_refines E (Sub.sub_isReadable pyfile_isFile.toIsReadable)
+
+theorem C01_windowed_twl :
+    IsReadable (TwlIO.ops (Sub.ops PyFile.ops) E)
+      (TwlIO.invTwl (Sub.invSub (fun _ => True) PyFile.abs))
+      (TwlIO.absTwl E (Sub.absSub PyFile.abs)) :=
+  C01_twl_refines E (Sub.sub_isReadable pyfile_isFile.toIsReadable)
+
+/-- a freshly created wrapper satisfies the invariant (no cached cipher) -/
+theorem C01_init (r : σ) (ctr : Nat) (h : inv r) : CtrIO.invCtr inv abs ⟨r, ctr, none, false⟩ :=
+  ⟨h, fun _ hc => by cases hc⟩
+
+/-- non-vacuity: a concrete stream, two back-to-back unaligned reads and a read after a seek, with a toy block
+    function, agree with the whole-stream decryption -/
+example :
+    let E : Bytes → Bytes := fun b => b.map (· + 1)
+    let ct : Bytes := (List.range 40).map UInt8.ofNat
+    ((CtrIO.ops PyFile.ops E).run ⟨⟨ct, 0⟩, 5, none, false⟩ [.read 3, .read 20, .seek 17 0, .read 7]).1 =
+      [.bytes (slice (plain3ds E 5 ct) 0 3), .bytes (slice (plain3ds E 5 ct) 3 20), .nat 17,
+       .bytes (slice (plain3ds E 5 ct) 17 7)] := by decide
+
 end Pyctr.C01
